@@ -178,3 +178,37 @@ Definition invoke_keys (g : gen) : option (list entry) :=
       | _, _ => None
       end
   end.
+
+(* ---- project level (analysis/mod.rs:94-124 analyze_project, :500-515 find_function_in_ast) ----
+   A file is the list of its top-level functions; some carry the command attribute. The value
+   parameters of a command come from its own signature (extract_commands_from_ast); its channels are
+   extracted from the first top-level function of the same file whose name equals the command name
+   (find_function_in_ast) - the command itself when top-level names are unique in the file. Nothing of
+   another file is looked at. *)
+Record fn_item := { f_cmd : cmd; f_is_command : bool }.
+Definition file := list fn_item.
+Definition project := list file.
+
+Definition find_fn (name : str) (f : file) : option cmd :=
+  match find (fun g => str_eqb (c_name (f_cmd g)) name) f with Some g => Some (f_cmd g) | None => None end.
+Definition chan_source (f : file) (c : cmd) : list param :=
+  match find_fn (c_name c) f with Some d => chan_params d | None => [] end.
+
+Definition analyse_in (cf : cfg) (f : file) (c : cmd) : outcome ctx :=
+  match apply_rule RCamel (c_name c) with
+  | Panic => Panic
+  | Ok _ =>
+      match mapO (value_entry cf) (value_params c), mapO (fun p => param_key cf (p_name p)) (chan_source f c) with
+      | Ok vs, Ok cs => Ok {| x_values := vs; x_chans := cs |}
+      | _, _ => Panic
+      end
+  end.
+Definition generate_in (cf : cfg) (m : mode) (f : file) (c : cmd) : outcome gen :=
+  match analyse_in cf f c with
+  | Panic => Panic
+  | Ok x => Ok (match m with Plain => gen_plain x | Zod => gen_zod x end)
+  end.
+Definition commands_of (f : file) : list cmd := map f_cmd (filter f_is_command f).
+(* every command of the project with what is generated for it, files in the given (sorted) order *)
+Definition generate_project (cf : cfg) (m : mode) (p : project) : list (cmd * outcome gen) :=
+  flat_map (fun f => map (fun c => (c, generate_in cf m f c)) (commands_of f)) p.
